@@ -219,6 +219,37 @@ def build(shape, n, pats):
         f.add("    call ", U(n, "PROC"), "(obj)")
         f.add("  end subroutine work")
         f.add("end module bind_mod")
+    elif shape == "private_in_submodule":
+        # a PRIVATE module entity is still visible in the module's submodules, which may live in other files
+        f.add("module priv_mod")
+        f.add("  implicit none")
+        f.add("  private")
+        f.add("  integer :: ", D(n, "PRIV"))
+        f.add("  public :: bump")
+        f.add("  interface")
+        f.add("    module subroutine bump(k)")
+        f.add("      integer :: k")
+        f.add("    end subroutine bump")
+        f.add("  end interface")
+        f.add("contains")
+        f.add("  subroutine reset()")
+        f.add("    character(len=40) :: text")
+        f.add("    integer :: other")
+        for p in pats:
+            if p in ("comment", "literal"):
+                emit(f, "    ", p, n, "PRIV")
+        f.add("    ", U(n, "PRIV"), " = 0")
+        f.add("  end subroutine reset")
+        f.add("end module priv_mod")
+        g = ws.file("priv_impl.f90")
+        g.add("submodule (priv_mod) priv_impl")
+        g.add("  implicit none")
+        g.add("contains")
+        g.add("  module subroutine bump(k)")
+        g.add("    integer :: k")
+        g.add("    ", U(n, "PRIV"), " = ", U(n, "PRIV"), " + k")
+        g.add("  end subroutine bump")
+        g.add("end submodule priv_impl")
     elif shape == "interface_body":
         # the entity is an external function declared by an interface body: its uses lie outside the interface block
         # (program body, internal procedure), the block only holds the declaration
@@ -383,7 +414,7 @@ def jobs(maxlen):
                         continue
                     k += 1
                     yield (shape, n, pats, NEW_NAMES[k % len(NEW_NAMES)])
-    for shape in ("interface_body", "abstract_interface", "binding_same_name"):
+    for shape in ("interface_body", "abstract_interface", "binding_same_name", "private_in_submodule"):
         for n in NAMES:
             if "$" in n:
                 continue
